@@ -513,6 +513,15 @@ def instantiate_axioms(formulas, rounds=5):
                 continue
             done.add(app.get_id())
             new.extend(sf.axioms_for(app))
+            if sf.name == 'flat':
+                # lemma L-FLAT (proved by induction in prove_lemmas): occ(r, flat(s)) == occs(r, s)
+                rs = list(extras.get('occ', {}).values()) + list(extras.get('occs', {}).values())
+                ids = set()
+                for ex in rs:
+                    if ex[0].get_id() in ids:
+                        continue
+                    ids.add(ex[0].get_id())
+                    new.append(occ(ex[0], app) == occs(ex[0], app.arg(0)))
         if not new:
             break
         axioms.extend(new)
@@ -545,3 +554,57 @@ def structural_axioms(formulas):
         elif z3.is_quantifier(e):
             stack.append(e.body())
     return out
+
+
+def prove_lemmas():
+    """Discharge the induction proofs of the lemmas that instantiate_axioms uses.  Returns list of (name, ok)."""
+    out = []
+    r = z3.Const('lem_r', Obj)
+    P = z3.Const('lem_P', SeqSeqMdS)
+    m = z3.Const('lem_m', SeqMdS)
+
+    def valid(assumptions, goal):
+        fs = list(assumptions) + [z3.Not(goal)]
+        # only the defining (unfolding) axioms may be used here, not the lemma itself
+        saved = SpecFun.registry['flat'].name
+        ax = []
+        for f in fs:
+            pass
+        ax = _unfold_only(fs)
+        s = z3.Solver()
+        s.set('timeout', 10000)
+        s.add(*fs)
+        s.add(*ax)
+        return s.check() == z3.unsat
+    base = valid([], occ(r, flat(z3.Empty(SeqSeqMdS))) == occs(r, z3.Empty(SeqSeqMdS)))
+    step = valid([occ(r, flat(P)) == occs(r, P)],
+                 occ(r, flat(z3.Concat(P, z3.Unit(m)))) == occs(r, z3.Concat(P, z3.Unit(m))))
+    out.append(('L-FLAT.base: occ(r, flat([])) == occs(r, [])', base))
+    out.append(('L-FLAT.step: occ(r, flat(P)) == occs(r, P)  ==>  occ(r, flat(P ++ [m])) == occs(r, P ++ [m])', step))
+    return out
+
+
+def _unfold_only(formulas, rounds=4):
+    seen, done, axioms, work = set(), set(), [], list(formulas)
+    for _ in range(rounds):
+        apps = []
+        for f in work:
+            _walk(f, seen, apps)
+        concats = []
+        _collect_concats(work, set(), concats)
+        for c in concats:
+            for sf in SpecFun.registry.values():
+                if sf.seq_sort == c.sort():
+                    for ex in ([()] if sf.nextra == 0 else [tuple(a.arg(i) for i in range(sf.nextra)) for s2, a in apps if s2 is sf]):
+                        apps.append((sf, sf.f(*(list(ex) + [c]))))
+        new = []
+        for sf, app in apps:
+            if app.get_id() in done:
+                continue
+            done.add(app.get_id())
+            new.extend(sf.axioms_for(app))
+        if not new:
+            break
+        axioms.extend(new)
+        work = new
+    return axioms
